@@ -343,4 +343,10 @@ class ParseMCNPCell:
             trcl_params[3:] = list(map(to_cos, trcl_params[3:12]))
         else:
             trcl_params = [float(x) for x in trcl_params]
+        if len(trcl_params) == 13:
+            # the 13th entry is the `m' flag of the transformation
+            if int(trcl_params[-1]) != 1:
+                raise NotImplementedError('affine transformations with m!=1 '
+                                          'are not supported yet')
+            trcl_params = trcl_params[:12]
         return tuple(trcl_params)
